@@ -1097,7 +1097,7 @@ def _known_not_single(p, sym):
     return lo >= 2 or (hi is not None and hi < 1) or 1 in ne
 
 
-def check_list(ctx, classes, arity_rule=None):
+def check_list(ctx, classes, arity_rule=None, empty_and_rule=None):
     """The list-of-lists form is the OR over its entries of the AND over
     each entry's members, every member parsed as a single check and no
     non-empty entry or member left out: decided on the translator's paths
@@ -1223,7 +1223,7 @@ def check_list(ctx, classes, arity_rule=None):
         n_paths += 1
         R = term(p.outcome.expr)
         line = p.outcome.line
-        if arity_rule is not None:
+        if arity_rule is not None or empty_and_rule is not None:
             # every combinator built over a collection: the path excludes
             # that the collection has exactly one element (a one-operand
             # and/or prints as `(x)`, which parses back to `x`)
@@ -1240,6 +1240,25 @@ def check_list(ctx, classes, arity_rule=None):
                         yield from combs(x)
             for cb in combs(R):
                 sym = cb[1][1]
+                if empty_and_rule is not None:
+                    # an AND over no operands allows everybody: it is built
+                    # only from a collection this path has put something in
+                    if cb[0] == 'and':
+                        ok = bool(cb[1][2])
+                        key = (getattr(cb[2], 'lineno', line), 'empty', ok)
+                        if key not in arity_seen:
+                            arity_seen.add(key)
+                            ctx.ob(empty_and_rule, ok, W(getattr(
+                                cb[2], 'lineno', line)), f.qual,
+                                '%s over the collected members' % U(
+                                    cb[2].func),
+                                'never built over nothing' if ok else
+                                'the list-rule translator can build %s over '
+                                'no members at all, which allows every '
+                                'request: an entry whose members are all '
+                                'skipped grants access (path: %s)' % (
+                                    U(cb[2].func), p.cond_text()[-200:]))
+                    continue
                 ok = _known_not_single(p, sym)
                 key = (getattr(cb[2], 'lineno', line), cb[0], ok)
                 if key in arity_seen:
